@@ -38,19 +38,19 @@ REGEX_FILES = {
     'C18': ['markdown/util.py', 'markdown/postprocessors.py'],
 }
 
-add('C01', ['C01Spec', 'C01', 'C01b', 'C01c'], ['corr.doc'] + PIPE,
+add('C01', ['C01Spec', 'C01', 'C01b', 'C01c', 'C01d'], ['corr.doc'] + PIPE,
     'Lean 4: specification `spec : Doc → html` of the construct grammar + print; theorems on the pipeline model for sub-grammars; spec and model both tied to the implementation by correspondence',
     'PARTIAL: the print-then-parse theorem is proved only for the sub-grammar named in Props/C01*.lean; for the rest of the grammar the Lean `spec` is compared with the implementation by correspondence and search only.')
-add('C02', ['C02Block', 'C02Inline'], PIPE + ['corr.extract', 'corr.code', 'corr.attrlist', 'corr.pipelinex'],
+add('C02', ['C02Block', 'C02Inline', 'C02X'], PIPE + ['corr.extract', 'corr.code', 'corr.attrlist', 'corr.pipelinex'],
     'Lean 4 termination proofs: the fuel bounds of the block parser (and of the inline engine) always suffice — `parseDocument` is total for every input; total pipeline model tied by end-to-end correspondence; broad search for exceptions/timeouts',
     'PARTIAL: proved for the core pipeline model on text without `<`; the stdlib HTML tokenizer, unmodelled extensions and CPython\'s recursion limit (F-C02-3) are outside the theorems — for them only the search speaks.')
-add('C03', ['C03Code', 'C03'], ['corr.code'] + PIPE,
+add('C03', ['C03Code', 'C03', 'C03Fenced'], ['corr.code', 'corr.pipelinex'] + PIPE,
     'Lean 4 proofs: code_escape composed with the serializer escapes exactly once and reads back to the body (for all strings); fenced-code recogniser/stash theorems; code text carried through the pipeline model',
     'PARTIAL: the stdlib tokenizer is not modelled (F-C03-1 lives there); "whatever surrounds the code" is proved for the placements named in Props/C03*.lean, the others are covered by correspondence and search.')
-add('C04', ['C04'], ['corr.extract'],
+add('C04', ['C04', 'C04Text'], ['corr.extract', 'corr.htmltok'],
     'Lean 4 proofs over an event-level model of HTMLExtractor (state machine over tokenizer events) and of the raw-HTML restore: a balanced block is stashed verbatim exactly once and restored unwrapped; events recorded from the real parser are replayed in the model',
     'PARTIAL: the stdlib tokenizer that produces the events is trusted, not modelled (F-C04-1 lives there); blocks starting while `intail`, md_in_html and multi-pass restore are covered by correspondence/search only.')
-add('C05', ['C05Block', 'C05', 'C05Amp', 'C14'], PIPE + ['corr.serializer', 'corr.readers'],
+add('C05', ['C05Block', 'C05', 'C05Amp', 'C05Full', 'C14'], PIPE + ['corr.serializer', 'corr.readers'],
     'Lean 4 proofs: vocabulary/void invariant of every tree the block (and inline) model builds + serializer round-trip theorem (strict reader accepts the output and reads back the tree)',
     'PARTIAL: the composition to the final output string is proved as far as Props/C05*.lean state; the `&`/entity-stash case rests on correspondence. "Entity reference" is read as the code reads it (digit-initial names allowed).')
 add('C06', ['C06Block', 'C06Inline', 'C06'], PIPE,
@@ -65,7 +65,7 @@ add('C08', ['C08Block', 'C08Inline', 'C08'], PIPE,
 add('C09', ['C09', 'C09Doc'], ['corr.normalize', 'corr.pipeline'],
     'Lean 4 proofs about the model of NormalizeWhitespace (line endings, tabs, STX/ETX, whitespace-only lines, leading/trailing blank lines), stated for the step list regenerated from the source; unit correspondence for tab lengths 0-8',
     'PARTIAL: the normalisation theorems are full; the lift "the rest of convert reads only the normalised text" is by construction of the pipeline model and end-to-end correspondence. F-C09-1 (whitespace-only first line) was repaired (fix: commit a0e7e3c); the first-line theorems are now unconditional.')
-add('C10', ['C10', 'C10b', 'C09'], PIPE + ['corr.pipelinex'],
+add('C10', ['C10', 'C10b', 'C10X', 'C10XPost', 'C09'], PIPE + ['corr.pipelinex'],
     'Lean 4 proofs: input cannot forge placeholders (normalisation strips STX/ETX), post-conditions of every restore step, placeholder invariants of the inline model on the pattern subset that cannot leak; the model leaks where the code leaks (kernel-checked)',
     'PARTIAL: link/reference/image/autolink/html/entity patterns and extensions are outside the proved subset (F-C10-1/2/3 live there).')
 add('C11', ['C11', 'C11Census'], [],
@@ -83,11 +83,12 @@ add('C14', ['C14', 'C14Doc', 'C14DocDomain'], ['corr.serializer', 'corr.pipeline
 add('C15', ['C15', 'C15Inline', 'C15Forms'], PIPE,
     'Lean 4 proofs on the block model: the reference-definition recogniser accepts every title spelling, a definition adds exactly one map entry and no node, position independence, label normalisation',
     'PARTIAL: the rendering of the resolved link (inline stage) rests on correspondence where not proved.')
-add('C16', ['C16Tables', 'C16Triggers', 'C16AttrList', 'C16Fenced', 'C16BlockExt', 'C16Order'],
+add('C16', ['C16Tables', 'C16Triggers', 'C16AttrList', 'C16Fenced', 'C16BlockExt', 'C16Order', 'C16Pipeline', 'C16Render',
+            'C16RenderFence', 'C16RenderWiki', 'C16RenderX'],
     ['corr.tables', 'corr.triggers', 'corr.attrlist', 'corr.code', 'corr.blockext', 'corr.dispatch', 'corr.pipelinex'],
     'Lean 4 proofs: table cell splitting/row width/alignment theorems, attribute-list print/parse round trip, entry recognisers of every extension need their trigger + dispatcher inertness theorem (non-interference), fenced-code inertness',
     'PARTIAL: md_in_html, smarty, codehilite, meta, legacy_* are not modelled (search only); documented rendering is proved per component, compositions by correspondence/search.')
-add('C17', ['C17', 'C16Order'], ['corr.toc', 'corr.pipelinex'],
+add('C17', ['C17', 'C17Doc', 'C16Order'], ['corr.toc', 'corr.pipelinex'],
     'Lean 4 proofs: unique() fresh + terminating (pigeonhole), assigned ids pairwise distinct, nest_toc_tokens flatten/outline theorems for all level sequences, footnote id bookkeeping (refs resolve, k refs → k distinct back-links)',
     'slugify and inline rendering of titles are parameters (theorems hold for every slugify); F-C17-1/2 are kernel-checked counterexamples.')
 add('C18', ['C18', 'C18Stash'], ['corr.dispatch', 'corr.inline', 'corr.registry'],
